@@ -9,7 +9,8 @@ git -C /repo worktree add --detach $WT HEAD -q || exit 2
 cp $DEMO $WT/_demo.py
 cd $WT
 PYTHONPATH=$WT /venv/bin/python _demo.py > /tmp/sv_demo_clean.log 2>&1; d0=$?
-git apply $PATCH || { echo "patch does not apply"; git -C /repo worktree remove --force $WT; exit 2; }
+git apply $PATCH 2>/dev/null || patch -p1 -s --fuzz=3 < $PATCH || { echo "$NAME: patch does not apply"; cd /; git -C /repo worktree remove --force $WT; exit 2; }
+find . -name "*.orig" -delete; find . -name "*.rej" -delete
 timeout 600 env PYTHONPATH=$WT /venv/bin/python -m pytest -q -p no:cacheprovider tests > /tmp/sv_tests.log 2>&1; t=$?
 PYTHONPATH=$WT /venv/bin/python _demo.py > /tmp/sv_demo_changed.log 2>&1; d1=$?
 echo "$NAME: demo(unchanged)=$d0 tests(changed)=$t [$(tail -1 /tmp/sv_tests.log)] demo(changed)=$d1"
